@@ -125,7 +125,6 @@ impl AsyncFileSystem for AsyncOverlayFS {
     }
 
     async fn create_dir(&self, path: &str) -> VfsResult<()> {
-        self.ensure_has_parent(path).await?;
         if self.exists(path).await? {
             // occupied, possibly only in a lower layer which the upper layer cannot see
             return Err(match self.metadata(path).await?.file_type {
@@ -134,6 +133,7 @@ impl AsyncFileSystem for AsyncOverlayFS {
             }
             .into());
         }
+        self.ensure_has_parent(path).await?;
         self.write_path(path)?.create_dir().await?;
         let whiteout_path = self.whiteout_path(path)?;
         if whiteout_path.exists().await? {
